@@ -300,6 +300,8 @@ def check_annotate_paths(repo: Repo, rep: Report, tier="quick"):
         return [i for i in cand if all(mot.cmp_terms(("%s%d" % (fam, i), 0), ("%s%d" % (fam, j), 0), "<=") for j in cand)]
 
     def judge(val, mot, idx, wit):
+        if isinstance(val, Opaque):
+            raise Unsupported(None, "annotate_paths returns a value the interpretation does not know: %r" % (val,))
         if not isinstance(val, DictObj):
             add("not-a-dict", "annotate_paths returns %r" % (val,), wit)
             return
